@@ -130,6 +130,8 @@ for w, cmp_ in [(1, "s.in8 == -1"), (1, "s.in4a < -1"), (1, "s.in8 == ~0"), (1, 
   RAW.append((f"const:o{w}<-{cmp_}", w, ["{o} @= " + cmp_]))
 RAW.append(("tmp-backedge:0|s.in1", 8, ["t = 0", "for i in range(2):", "  {o} @= t", "  t = s.in1"]))
 RAW.append(("tmp-backedge:s.in4a|s.in8", 8, ["t = s.in4a", "for i in range(2):", "  {o} @= zext(t, 8)", "  t = s.in8"]))
+RAW.append(("tmp-backedge:created-in-loop", 8, ["for i in range(2):", "  if i == 0:", "    t = 0", "  {o} @= t", "  t = s.in1"]))
+RAW.append(("tmp-backedge:chain", 8, ["t = 0", "u = 0", "for i in range(3):", "  {o} @= u", "  u = t", "  t = s.in1"]))
 RAW.append(("tmp-ifexp-literals", 8, ["t = 1 if s.in1 else 200", "{o} @= t"]))
 for w, e in [(7, "s.in8[0:(~Bits3(1)) >> Bits3(1)]"), (3, "s.in8[0:(~Bits3(1)) >> Bits3(1)]"), (8, "s.in8 + (~Bits8(1))"), (8, "s.in8 ^ Bits8(-3)"), (4, "(~Bits4(5)) % Bits4(7)")]:
   RAW.append((f"masked-constant:o{w}<-{e}", w, ["{o} @= " + e]))
